@@ -192,6 +192,10 @@ func isEllipsis(x ast.Decl) bool {
 	if !ok {
 		return false
 	}
+	// An attribute or alias on the pattern constraint would be lost.
+	if len(f.Attrs) > 0 || f.Alias != nil {
+		return false
+	}
 	v, ok := f.Value.(*ast.Ident)
 	if !ok || v.Name != "_" {
 		return false
